@@ -198,6 +198,20 @@ type (
 		B NamedFuncs
 	}
 	OnlyBad struct{ F func() }
+	// invalid field types that carry tags
+	BadTagged struct {
+		F  func()         `jsonschema:"a callback"`
+		C  chan int       `json:"c" jsonschema:"a channel"`
+		M  map[int]string `json:"m,omitempty" jsonschema:"keyed by int"`
+		OK int            `json:"ok" jsonschema:"fine"`
+	}
+	BadTaggedNest struct {
+		P *BadTagged
+		S []BadTagged
+		A struct {
+			G []func() `jsonschema:"anonymous"`
+		}
+	}
 	// jsonschema description tags
 	Described struct {
 		A int `json:"a" jsonschema:"the a"`
@@ -259,7 +273,7 @@ func Catalog() []T {
 		out = append(out, t)
 	}
 	out = append(out, mkT(RecUnexp{}, "catalog")) // recursion through an unexported field is invisible to encoding/json
-	for _, x := range []any{BadFunc{}, BadChan{}, BadCplx{}, BadKey{}, BadUPtr{}, BadDeep{}, BadNamed{}, BadTwice{}, BadTwice2{}, OnlyBad{}, NamedFuncs{}, func() {}, make(chan int), complex64(0), map[int]int{}, []func(){}, map[string]chan int{}} {
+	for _, x := range []any{BadFunc{}, BadChan{}, BadCplx{}, BadKey{}, BadUPtr{}, BadDeep{}, BadNamed{}, BadTwice{}, BadTwice2{}, OnlyBad{}, NamedFuncs{}, BadTagged{}, BadTaggedNest{}, &BadTagged{}, func() {}, make(chan int), complex64(0), map[int]int{}, []func(){}, map[string]chan int{}} {
 		t := mkT(x, "unsupported")
 		t.Unsupported = true
 		out = append(out, t)
